@@ -805,7 +805,9 @@ pub fn process<I: BufRead, O: Write>(
                 } else if state == State::Active {
                     lines.push((filename_rc.clone(), line, included_in_rc.clone()));
                     output.write_all(new_line.as_bytes())?;
-                    if !new_line.ends_with('\n') && has_lf {
+                    // The last line of an included file may lack its line feed: the text of the
+                    // including file must not continue on the same output line
+                    if !new_line.ends_with('\n') && (has_lf || included_in.is_some()) {
                         output.write_all(b"\n")?;
                     }
                 }
